@@ -39,6 +39,8 @@ type openCfg struct {
 	Parallelism int
 	Restore     bool
 	PrefixBlack []string
+	ReplaceTag  bool // output.replay.replaceHashTag
+	RdbParallel int  // output.replay.replayRdbParallel (0 = 1)
 }
 
 // clusterRedis builds the output configuration the way cmd/syncer.go derives it for a cluster
@@ -61,14 +63,17 @@ func (d *driver) open(target config.RedisConfig, oc openCfg) (*syncer.RedisOutpu
 	tr := true
 	restore := oc.Restore
 	tdb := -1
+	if oc.RdbParallel < 1 {
+		oc.RdbParallel = 1
+	}
 	g := config.GetSyncerConfig()
 	g.Input = &config.InputConfig{}
 	g.Channel = &config.ChannelConfig{}
 	g.Output = &config.OutputConfig{Replay: config.ReplayConfig{
 		ResumeFromBreakPoint: &tr, BisyncEnabled: &tr, ReplayRdbEnableRestore: &restore, ReplayTransaction: &tr,
-		KeyExists: "replace", MaxProtoBulkLen: 512 << 20, TargetDbCfg: &tdb, TargetDb: -1,
+		KeyExists: "replace", MaxProtoBulkLen: 512 << 20, TargetDbCfg: &tdb, TargetDb: -1, ReplaceHashTag: oc.ReplaceTag,
 		BatchCmdCount: oc.Window, BatchTicker: 10 * time.Millisecond, BatchBufferSize: 64 * 1024, KeepaliveTicker: time.Hour,
-		ReplayRdbParallel: 1, Parallelism: oc.Parallelism, UpdateCheckpointTicker: time.Hour, Mode: oc.Mode,
+		ReplayRdbParallel: oc.RdbParallel, Parallelism: oc.Parallelism, UpdateCheckpointTicker: time.Hour, Mode: oc.Mode,
 		Stats: config.OutputStats{DisableLog: true, LogInterval: time.Hour},
 	}}
 	if len(oc.PrefixBlack) > 0 {
